@@ -11,7 +11,9 @@ KERNEL_SCAN = ["ShuttleModel/Kernel.lean", "ShuttleModel/Clock.lean", "ShuttleMo
 
 
 def available_profiles():
-    return list(gen.PROFILES)
+    """the general profiles; the directed shape profiles (exhaustive DFS / replicated runs) are expensive and are run by the
+    properties they were written for"""
+    return [p for p, v in gen.PROFILES.items() if not (v.get("dfs_iters") or v.get("replicate"))]
 
 
 def std_streams(rng, tier, pid, kinds=("random", "pct", "rr", "dfs"), per_quick=60, per_thorough=1200, extra_cfg=None, profiles=None):
